@@ -378,15 +378,25 @@ def imiLine : P String := do
 /-! `fmc trie|ftrie <F> <ins/era/erp …> | n outcome nq (f ids)*` : `FilterMap(trie, items)` over a trie that may have seen erasures,
     `n = trie.size()` items.  Clause: if the constructor accepts, every id a filter hands out must address the item container
     (`ofTrie_gap_counterexample`: the size test does not ensure that); if it rejects, some stored id must be outside the container. -/
-def fmcOps : Nat → Spec → P Spec
+structure CSt where
+  es : Spec := []
+  t : T
+  ft : FT
+
+def fmcOps : Nat → CSt → P CSt
   | 0, _ => P.fail
-  | fuel + 1, es => do
+  | fuel + 1, s => do
     let op ← P.tok
     match op with
-    | "|" => pure es
-    | "ins" => let q ← pf; let id ← P.nat; fmcOps fuel (specInsert es id q)
-    | "era" => let id ← P.nat; fmcOps fuel (specErase es id)
-    | "erp" => let id ← P.nat; let _ ← pf; fmcOps fuel (specErase es id)
+    | "|" => pure s
+    | "ins" =>
+      let q ← pf; let id ← P.nat
+      let ft' := match s.ft.insert q with | some r => r.1 | none => s.ft
+      fmcOps fuel { es := specInsert s.es id q, t := (s.t.insert q).1, ft := ft' }
+    | "era" => let id ← P.nat; fmcOps fuel { s with es := specErase s.es id, t := s.t.erase id }
+    | "erp" =>
+      let id ← P.nat; let q ← pf
+      fmcOps fuel { es := specErase s.es id, t := (s.t.erasePF true id q).getD s.t, ft := (s.ft.erase id q).getD s.ft }
     | _ => P.fail
 
 def fmcQueries (comp : String) (es : Spec) (n : Nat) : Nat → Verdict → P Verdict
@@ -400,16 +410,41 @@ def fmcQueries (comp : String) (es : Spec) (n : Nat) : Nat → Verdict → P Ver
 
 def fmcLine : P String := do
   let kind ← P.tok
-  let comp := if kind == "ftrie" then "FilterMap<FasterTrie>" else "FilterMap<Trie>"
-  let _F ← P.nats
+  let faster := kind == "ftrie"
+  let comp := if faster then "FilterMap<FasterTrie>" else "FilterMap<Trie>"
+  let F ← P.nats
+  match T.mk? F with
+  | none => P.fail
+  | some t0 =>
   let toks ← get
-  let es ← fmcOps (toks.length + 1) []
+  let s ← fmcOps (toks.length + 1) { t := t0, ft := FT.new F }
+  let es := s.es
   let n ← P.nat; let out ← P.tok; let nq ← P.nat
   let dense := (specIds es).all (· < n)
   let v : Verdict := { tag := if dense then "fmc" else "fmc gap" }
   let v := v.failIf (n != es.length) s!"{comp}::size wrong_count impl={n} stored={es.length}"
+  -- the constructor as the source has it now (size test only / size test + id range: AITB.Gen.C20.ctorChecksIdRange)
+  let items := List.replicate n 0
+  let chk := AITB.Gen.C20.ctorChecksIdRange
+  let mdl : String :=
+    if faster then (match (if chk then FMF.ofTrieChecked s.ft items else FMF.ofTrie s.ft items) with | some _ => "ok" | none => "invalid_argument")
+    else (match (if chk then FM.ofTrieChecked sizeFB s.t items else FM.ofTrie sizeFB s.t items) with
+      | some (some _) => "ok" | some none => "invalid_argument" | none => "ub")
+  let v := v.diffIf (mdl != out) s!"{comp}::FilterMap(trie,items) model={mdl} impl={out} stored_ids={specIds es} items={n}"
   let v := v.failIf (out != "ok" && dense) s!"{comp}::FilterMap(trie,items) rejects_valid_pair stored_ids={specIds es} items={n} outcome={out}"
   let v ← fmcQueries comp es n nq v
+  pure v.render
+
+/-- `mat <a> <b> <f> | m_ab m_ba m_fa m_fb` : the library's `match` helpers (Core.cpp) on ascending keys against the specification's
+    compatibility (`matchPF_spec`, `matchF_spec`): the vocabulary in which the callers of the indexes and this check speak -/
+def matLine : P String := do
+  let a ← pf; let b ← pf; let f ← P.nats; P.bar
+  let mab ← P.bool; let mba ← P.bool; let mfa ← P.bool; let mfb ← P.bool; P.eof
+  let v : Verdict := { tag := if a.isEmpty || b.isEmpty then "mat trivial" else "mat" }
+  let v := v.diffIf (matchPF a b != mab || matchPF b a != mba) s!"Factored::match(pf,pf) model={matchPF a b},{matchPF b a} impl={mab},{mba}"
+  let v := v.diffIf (matchF f a != mfa || matchF f b != mfb) s!"Factored::match(f,pf) model={matchF f a},{matchF f b} impl={mfa},{mfb}"
+  let v := v.failIf (mab != compatB a b || mba != compatB a b) s!"Factored::match(pf,pf) not_compatibility a={a} b={b} impl={mab},{mba} compatible={compatB a b}"
+  let v := v.failIf (mfa != compatB a (prefixPF 0 f) || mfb != compatB b (prefixPF 0 f)) s!"Factored::match(f,pf) not_compatibility f={f} a={a} b={b} impl={mfa},{mfb}"
   pure v.render
 
 /-- `ism <kind> <ids> <cont> | visited values size` : IndexSkipMap walk against the as-written model (`skipWalkIds`); with an ascending
@@ -453,6 +488,7 @@ def handle (toks : List String) : String :=
     | "ctor" :: rest => P.run ctorLine rest
     | "imi" :: rest => P.run imiLine rest
     | "fmc" :: rest => P.run fmcLine rest
+    | "mat" :: rest => P.run matLine rest
     | "ism" :: rest => P.run ismLine rest
     | "srt" :: rest => P.run srtLine rest
     | _ => none
